@@ -63,7 +63,8 @@ func allCases(d *Driver, path string, seed int64, tier string) ([]json.RawMessag
 }
 
 const (
-	exitHang = 3
+	exitHang  = 3
+	exitInfra = 64 // the Go runtime itself exits with 2 on a fatal error (stack overflow), which is an observation
 )
 
 // runChild executes cases[from:] in this process.  Before each case the index is written to
@@ -72,12 +73,12 @@ func runChild(d *Driver, casesPath, outPath string, from int, progress string, s
 	cs, err := allCases(d, casesPath, seed, tier)
 	if err != nil {
 		fmt.Fprintln(os.Stderr, "driver child:", err)
-		return 2
+		return exitInfra
 	}
 	out, err := os.OpenFile(outPath, os.O_APPEND|os.O_CREATE|os.O_WRONLY, 0o644)
 	if err != nil {
 		fmt.Fprintln(os.Stderr, "driver child:", err)
-		return 2
+		return exitInfra
 	}
 	w := bufio.NewWriterSize(out, 1<<20)
 	timeout := 10 * time.Second
@@ -108,9 +109,8 @@ func runChild(d *Driver, casesPath, outPath string, from int, progress string, s
 		for _, l := range lines {
 			writeLine(w, l)
 		}
-		if i%64 == 0 {
-			w.Flush()
-		}
+		// a later case may kill the process: nothing of a completed case may sit in a buffer
+		w.Flush()
 	}
 	w.Flush()
 	out.Close()
@@ -161,7 +161,7 @@ func runParent(d *Driver, prop, casesPath, outPath string, seed int64, tier stri
 		if ee, ok := err.(*exec.ExitError); ok {
 			code = ee.ExitCode()
 		}
-		if code == 2 {
+		if code == exitInfra {
 			fmt.Fprintf(os.Stderr, "driver: child infrastructure failure: %s\n", stderr.String())
 			return 2
 		}
